@@ -173,7 +173,18 @@ class C04(Prop):
                 rec4["ret"] = be.p_list(R.inverse())
                 rec4["m1"] = be.p_list(R)
                 rec4["fresh"] = True
-                return [rec, rec2, rec3, rec4]
+                # ... and the original, which has been inverted before and has since been rotated in place, is inverted as the
+                # map it is NOW; once more after a transform_by (by its own former inverse) and after an embed
+                rec5 = {"op": "inverse", "m": be.p_list(M), "again": True}
+                rec5["ret"] = be.p_list(M.inverse())
+                rec5["m1"] = be.p_list(M)
+                rec5["fresh"] = True
+                M.transform_by(R2)
+                rec6 = {"op": "inverse", "m": be.p_list(M), "again": True}
+                rec6["ret"] = be.p_list(M.inverse())
+                rec6["m1"] = be.p_list(M)
+                rec6["fresh"] = True
+                return [rec, rec2, rec3, rec4, rec5, rec6]
             elif k == "compose":
                 rec["a"], rec["b"] = scn["a"], scn["b"]
                 A, B = be.cmap(scn["a"]), be.cmap(scn["b"])
